@@ -426,7 +426,17 @@ def _structure_task(args):
         st.heap[so][('f', None, JO.index('utf8_strings'))] = BoolV(z3.BoolVal(False))      # string escaping is print.string's subject
         val = build_value(st, ex, v, N)
         ex.new_frame(st, F, [selfref, slot(st, named(st, 'W', 'W'), 'w*'), slot(st, val, 'val*')])
-        for d in ex.run(st):
+        from .mirsym import PathLimit
+        try:
+            finished = ex.run(st, max_paths=1500)
+        except PathLimit as e:
+            # a printer that forks at every nesting level (not the case on the pinned tree: 3 paths per shape) cannot be
+            # explored on this shape; the shape is handed to the native comparison instead
+            res['obl'] += 1
+            for sty_ in STY:
+                res['cands'].append({'role': f'structure:{sty_}:unexplored', 'text': f'print_something({json.dumps(v)[:60]}): {e}', 'model': {'value': v, 'style': sty_}, 'unmodelled': 'path limit'})
+            continue
+        for d in finished:
             if d.status == 'infeasible': continue
             res['paths'] += 1; res['obl'] += 1
             hav = (d.havoc or [None])[0]
@@ -451,7 +461,7 @@ def _structure_task(args):
                 if bad is None and txt != exps[x]: bad = f'prints {txt!r}, expected {exps[x]!r}'; sty = x
             if bad is None:
                 res['ok'] += 1
-                if len(feas) == 1 and isinstance(v, (list, dict)) and len(res.setdefault('texts', [])) < 6: res['texts'].append((v, sty, txt))
+                if len(feas) == 1 and not d.havoc and isinstance(v, (list, dict)) and len(res.setdefault('texts', [])) < 6: res['texts'].append((v, sty, txt))
                 if sty == 'Pretty' and isinstance(v, (list, dict)) and len(v) >= 2 and len(res['samples']) < 1:
                     res['samples'].append({'value': v, 'style': sty, 'text': txt, 'verdict': 'RFC 8259 text of the value with the style\'s whitespace, for every number N'})
             else:
